@@ -10,7 +10,7 @@ THEOREMS = ["C09_clone_drop_silent", "C09_clone_not_original", "C09_verify_on_cl
             "C09_original_teardown_order", "C09_disabled_drop_silent", "C09_report_matches_verify",
             "C09_at_most_one_original", "C09_original_consumed", "C09_clone_adds_one_handle", "C09_nonvacuous"]
 
-RULE = ("life-cycle event sequences over up to 5 instances: clone (of original or clone), drop, verify(), report(), no_verify_in_drop(), "
+RULE = ("life-cycle event sequences over up to 5 instances: clone (of original or clone), clone_from (the target overwritten in place), drop, verify(), report(), no_verify_in_drop(), "
         "calls (matched, unmatched = recorded error, default-bodied = creates the delegation helper clone), make_ref(clone) (lent clone), "
         "each possibly executed on another thread, with Arc::strong_count observed after every step; clause sets with met / unmet / "
         "error-prone expectations; all sequences of length <= 3 over a reduced alphabet (exhaustive part) plus random sequences of length "
@@ -60,6 +60,8 @@ def alphabet(ninst):
         evs += [ev("clone", i), ev("drop", i), ev("verify", i), ev("nvid", i), ev("lend", i),
                 ev("call", i, 0, 1), ev("call", i, 2, 0), ev("call", i, 1, 0)]
     evs += [ev("report", 0), ev("drop", 0, other=True), ev("verify", 0, other=True), ev("report", 0, other=True)]
+    # Clone::clone_from: the target is overwritten in place by a clone of the source (its old value is dropped there)
+    evs += [ev("clonefrom", i, j) for i in range(ninst) for j in range(ninst) if i != j]
     return evs
 
 
@@ -72,6 +74,9 @@ def random_seq(rng, n):
         other = rng.random() < 0.15
         if r < 0.2 and cnt < 5:
             evs.append(ev("clone", i)); alive.add(cnt); cnt += 1
+        elif r < 0.25 and len(alive) >= 2:
+            j = rng.choice([x for x in sorted(alive) if x != i])
+            evs.append(ev("clonefrom", i, j))             # i stays alive: it now holds a clone of j
         elif r < 0.4:
             evs.append(ev("call", i, rng.choice([0, 0, 1, 2, 3]), rng.choice([0, 1]), other=other))
         elif r < 0.5:
